@@ -229,6 +229,19 @@ impl<'ast> Visit<'ast> for LoopFinder {
         }
         syn::visit::visit_expr_reference(self, e);
     }
+    fn visit_expr_binary(&mut self, e: &'ast syn::ExprBinary) {
+        // D34: L &= R  (on bools: Verus has no non-short-circuit `&`)
+        if let syn::BinOp::BitAndAssign(_) = e.op {
+            let call = e.span().byte_range();
+            let l = e.left.span().byte_range();
+            let r = e.right.span().byte_range();
+            self.vd.push(format!(
+                "{{\"rule\":\"D34\",\"call\":[{},{}],\"lhs\":[{},{}],\"rhs\":[{},{}]}}",
+                call.start, call.end, l.start, l.end, r.start, r.end
+            ));
+        }
+        syn::visit::visit_expr_binary(self, e);
+    }
     fn visit_expr_closure(&mut self, e: &'ast syn::ExprClosure) {
         self.closures += 1;
         syn::visit::visit_expr_closure(self, e);
@@ -398,6 +411,25 @@ impl<'ast> Visit<'ast> for LoopFinder {
                                         ));
                                     }
                                 }
+                            }
+                        }
+                    }
+                }
+                // D32: X.into_iter().map(|P| E).collect::<Vec<_>>()
+                if fm.method == "map" && fm.args.len() == 1 {
+                    if let (syn::Expr::Closure(c), syn::Expr::MethodCall(it)) = (&fm.args[0], &*fm.receiver) {
+                        if it.method == "into_iter" && it.args.is_empty() && c.inputs.len() == 1 && matches!(c.inputs[0], syn::Pat::Ident(_)) {
+                            let mut ef = EscapeFinder::default();
+                            ef.visit_expr(&c.body);
+                            if ef.escapes == 0 {
+                                let call = e.span().byte_range();
+                                let recv = it.receiver.span().byte_range();
+                                let pat = c.inputs[0].span().byte_range();
+                                let body = c.body.span().byte_range();
+                                self.vd.push(format!(
+                                    "{{\"rule\":\"D32\",\"call\":[{},{}],\"recv\":[{},{}],\"pat\":[{},{}],\"body\":[{},{}]}}",
+                                    call.start, call.end, recv.start, recv.end, pat.start, pat.end, body.start, body.end
+                                ));
                             }
                         }
                     }
